@@ -89,6 +89,9 @@ func setJoinContext(ctx *context) error {
 
 	switch v := ctx.phyPayload.MACPayload.(type) {
 	case *lorawan.JoinRequestPayload:
+		// the join-accept MIC and the session-keys are derived from the JoinEUI
+		// of the (MIC validated) join-request
+		ctx.joinEUI = v.JoinEUI
 		ctx.devNonce = v.DevNonce
 	default:
 		return fmt.Errorf("expected *lorawan.JoinRequestPayload, got %T", ctx.phyPayload.MACPayload)
